@@ -2,17 +2,19 @@
 SPEC = dict(
     title="Replicas converge: same committed log gives the same database on every node",
     pkg="./store", files=["store/c01_verif_test.go", "store/c33_c01_common_verif_test.go"],
-    rule="3-node in-process clusters (q: 1 hand-picked + 9 generated programs, t: 200): 4-9 requests of 1-3 statements (INSERT/UPDATE/DELETE/UPSERT/CTE/RETURNING, "
+    rule="3-node in-process clusters (q: 2 hand-picked + 8 generated programs + 1 long-gap scenario, t: 200): 4-9 requests of 1-3 statements (INSERT/UPDATE/DELETE/UPSERT/CTE/RETURNING, "
          "DDL, parameters, transactions) whose values come from random(), randomblob(n) and every date/time form at an explicit or implicit 'now' (sub-second forms, "
          "spaced/quoted/commented call syntax), sent through command/sql.Process + Store.Execute on the leader; observed on 6 apply paths: leader, follower live, node "
          "joining after the leader truncated its log (snapshot install + tail), follower re-opened >= 1.2 s later with its file reused and with the file restored "
-         "(entries after its snapshot applied again), peers.json recovery of a copy of the follower. A program is non-trivial when >= 1 statement was rewritten and "
+         "(entries after its snapshot applied again), peers.json recovery of a copy of the follower. Programs also carry session state between requests (TEMP table, last_insert_rowid()/changes(), BEGIN…COMMIT across two requests; never across a snapshot point — that is the known finding C01:session-state-not-in-snapshot, one corpus case) and rejected loads (4 kinds of unreadable data) after the follower's snapshot. One long-gap cluster (q: 62 s; t: 35/65/130 s) runs beside the others: live nodes idle between two entries that share session state, then late join / restart / recovery replay them back to back. A program is non-trivial when >= 1 statement was rewritten and "
          "wrote >= 1 row; distinct by the whole input",
     exhaustive=False,
     trusted=["SQLite evaluates a statement without environment-reading calls as a function of the database and the statement (Model.C01: `sem` after `inst`) — hypothesis, the theorem is partial in that sense",
              "snapshot/restore fidelity (C04, C10) enters as the premise restore (snapshot d) = d",
              "github.com/rqlite/sql parser (trees of the sent and of the logged statements); hashicorp/raft delivers the committed log in order to every node"],
-    assumptions=["excluded by design, as in the property: rewriting disabled, per-statement db_timeout, CURRENT_TIME/DATE/TIMESTAMP and DEFAULT expressions, random() inside ORDER BY, 'localtime'",
+    assumptions=["one read-write SQLite connection serves a node for the life of its database (state on it — TEMP tables, last_insert_rowid(), an open transaction — "
+                 "is kept between log entries however far apart they are applied); the long-gap scenario is what ties this",
+                 "excluded by design, as in the property: rewriting disabled, per-statement db_timeout, CURRENT_TIME/DATE/TIMESTAMP and DEFAULT expressions, random() inside ORDER BY, 'localtime'",
                  "foreign keys off in the cluster runs (the foreign-key dimension of recovery is C33's)"],
     level_text="C01_converge_partial: for every program in the quantifier (scan_sound, no random in ORDER BY), every snapshot point and every assignment of environments to "
                "applications, restart (both ways), recovery, install and live apply at another time equal the leader's live apply; C01_paths_agree and C01_env_independent are its two halves. "
